@@ -14,7 +14,8 @@ Open Scope Z_scope.
 (* ------------------------------------------------------------------ state *)
 Definition store := list (bytes * value).
 Record env : Type := mkEnv { estore : store; eouter : option nat; efun : option value }.
-Record state : Type := mkState { heap : list env; cur : nat; out : bytes; nextfid : nat }.
+(* out: the printed text as the list of written chunks, NEWEST FIRST (the text is concat (rev out)) *)
+Record state : Type := mkState { heap : list env; cur : nat; out : list bytes; nextfid : nat }.
 
 Inductive abort : Type :=
 | AFuel     (* the fuel given to [run] was not enough *)
@@ -161,7 +162,8 @@ Definition of_inexact (o : option fl) : outcome :=
 Definition of_interr (o : option Z) : outcome :=
   match o with Some z => OVal (VInt z) | None => OErr None end.
 
-Definition emit (b : bytes) (st : state) : state := mkState (heap st) (cur st) (out st ++ b) (nextfid st).
+Definition emit (b : bytes) (st : state) : state := mkState (heap st) (cur st) (b :: out st) (nextfid st).
+Definition printed (st : state) : bytes := concat (rev (out st)).
 Definition set_cur (id : nat) (st : state) : state := mkState (heap st) id (out st) (nextfid st).
 
 (* Environment.CreateOrSet: constants cannot change value; returns the value *)
